@@ -707,7 +707,14 @@ def rule_r14(ctx):
     c09.rule_r9(ctx, rid="C03.R14")
 
 
-RULES = [rule_r1, rule_r2, rule_r3, rule_r4, rule_r5, rule_r6, rule_r7, rule_r8, rule_error_route, rule_buffers, rule_r11, rule_r12, rule_r13, rule_r14]
+def rule_r15(ctx):
+    """Shared with C08.R3: the framing of the response is the server's - an application-supplied Transfer-Encoding or
+    Connection (hop-by-hop names) is refused, else the head announces a coding the body does not have."""
+    from . import c08
+    c08.rule_r3(ctx, rid="C03.R15")
+
+
+RULES = [rule_r1, rule_r2, rule_r3, rule_r4, rule_r5, rule_r6, rule_r7, rule_r8, rule_error_route, rule_buffers, rule_r11, rule_r12, rule_r13, rule_r14, rule_r15]
 
 from ..selftest import M, T, V  # noqa: E402
 
